@@ -7,6 +7,7 @@ package main
 // write/read cycles.  Faults: short write / ENOSPC / EIO of the sink at byte k.
 
 import (
+	"bytes"
 	"fmt"
 	"strings"
 
@@ -152,7 +153,13 @@ func scanWritten(out []byte, nparas int) string {
 var c08Groups []int
 
 func writeParas(r *rt.Run, api string, paras []control.Paragraph, w *simio.Writer) (err error, task *rt.Task) {
-	task = r.Solo("writer:"+api, func() {
+	task = r.Solo("writer:"+api, func() { err = writeBody(api, paras, w) })
+	return
+}
+
+// writeBody writes the paragraphs through one of the APIs (inside a task).
+func writeBody(api string, paras []control.Paragraph, w *simio.Writer) (err error) {
+	func() {
 		switch api {
 		case "WriteTo":
 			// one paragraph per WriteTo; the caller separates them
@@ -217,7 +224,7 @@ func writeParas(r *rt.Run, api string, paras []control.Paragraph, w *simio.Write
 			}
 			err = control.Marshal(w, sl)
 		}
-	})
+	}()
 	return
 }
 
@@ -328,8 +335,136 @@ func c08Retry(r *rt.Run, paras []control.Paragraph, expect [][]c08Field, w0 *sim
 	}
 }
 
+// c08Callers: several callers write their own paragraphs to their own sinks at
+// the same time (interleaved at every Write of every sink), then their stores
+// are read back by readers that are alive at the same time.  Each sink holds
+// exactly the bytes its caller produces alone, and each reader returns exactly
+// its own store.
+func c08Callers(r *rt.Run) {
+	t := r.T
+	n := 2 + t.Draw(2, "c08.callers")
+	type caller struct {
+		api   string
+		paras []control.Paragraph
+		solo  []byte
+		sink  *simio.Writer
+		err   error
+		task  *rt.Task
+	}
+	cs := make([]*caller, n)
+	for i := range cs {
+		c := &caller{api: []string{"WriteTo", "Encoder", "MarshalSlice"}[t.Draw(3, "c08.api")]}
+		for k, np := 0, t.Range(1, 3, "c08.paras"); k < np; k++ {
+			p := control.Paragraph{Values: map[string]string{}}
+			used := map[string]bool{}
+			for j, nf := 0, t.Range(1, 4, "c08.fields"); j < nf; j++ {
+				name := genFieldName(t, used)
+				v, _, _ := genC08Value(t, r)
+				p.Order = append(p.Order, name)
+				p.Values[name] = v
+			}
+			c.paras = append(c.paras, p)
+		}
+		w0 := simio.NewWriter(r, fmt.Sprintf("solo%d", i))
+		err, task := writeParas(r, c.api, c.paras, w0)
+		if taskTrouble(r, "C08", c.api, task) {
+			return
+		}
+		if err != nil {
+			r.Violate("C08/write-error", c.api, "writing to a healthy sink failed: %v", err)
+			return
+		}
+		c.solo = w0.Buf
+		cs[i] = c
+	}
+	r.Sticky = t.Draw(3, "sched.sticky")
+	for i, c := range cs {
+		c := c
+		c.sink = simio.NewWriter(r, fmt.Sprintf("sink%d", i))
+		c.task = r.Go(fmt.Sprintf("W%d", i), func() { c.err = writeBody(c.api, c.paras, c.sink) })
+	}
+	r.Sched()
+	r.Probe("several-callers-writing-at-the-same-time")
+	for i, c := range cs {
+		if taskTrouble(r, "C08", "concurrent-callers", c.task) {
+			return
+		}
+		if c.err != nil {
+			r.Violate("C08/write-error", "concurrent-callers", "caller %d (%s): %v", i, c.api, c.err)
+			return
+		}
+		if !bytes.Equal(c.sink.Buf, c.solo) {
+			r.Violate("C08/output-depends-on-other-callers", c.api, "caller %d wrote %q while other callers were writing their own paragraphs to their own sinks; alone it writes %q", i, clip(string(c.sink.Buf), 300), clip(string(c.solo), 300))
+			return
+		}
+	}
+	// read back: each store alone, then with readers alive at the same time -
+	// reader i is drained, reader i+1 is created, reader i is asked once more
+	alone := make([][]control.Paragraph, n)
+	for i, c := range cs {
+		got, err, task := readParas(r, c.solo)
+		if taskTrouble(r, "C08", "reread", task) || err != nil {
+			return // judged by the main part of the check
+		}
+		alone[i] = got
+	}
+	nested := make([][]control.Paragraph, n)
+	var late *control.Paragraph
+	var nerr error
+	task := r.Solo("nested-readers", func() {
+		var prev *control.ParagraphReader
+		for i, c := range cs {
+			pr, err := control.NewParagraphReader(simio.NewPlainReader(r, fmt.Sprintf("store%d", i), c.solo), nil)
+			if err != nil {
+				nerr = err
+				return
+			}
+			if prev != nil {
+				if p, _ := prev.Next(); p != nil {
+					late = p
+				}
+			}
+			nested[i], err = pr.All()
+			if err != nil {
+				nerr = err
+				return
+			}
+			prev = pr
+		}
+	})
+	if taskTrouble(r, "C08", "nested-readers", task) {
+		return
+	}
+	r.Probe("stores-read-back-by-readers-alive-at-the-same-time")
+	if late != nil {
+		r.Violate("C08/reread-depends-on-other-readers", "drained-reader-returns-more", "a reader that had reached the end of its store returned another paragraph (%v) once the next store's reader existed", late.Order)
+		return
+	}
+	if nerr != nil {
+		r.Violate("C08/reread-error", "nested-readers", "%v", nerr)
+		return
+	}
+	for i := range cs {
+		if len(nested[i]) != len(alone[i]) {
+			r.Violate("C08/reread-depends-on-other-readers", "paragraph-count", "store %d reads back as %d paragraphs alone and as %d while an earlier store's reader is still around", i, len(alone[i]), len(nested[i]))
+			return
+		}
+		for k := range alone[i] {
+			if fmt.Sprint(alone[i][k].Order) != fmt.Sprint(nested[i][k].Order) || fmt.Sprint(alone[i][k].Values) != fmt.Sprint(nested[i][k].Values) {
+				r.Violate("C08/reread-depends-on-other-readers", "paragraph", "store %d paragraph %d differs between a lone reader and nested readers", i, k)
+				return
+			}
+		}
+	}
+}
+
 func runC08(r *rt.Run, tier string) {
 	t := r.T
+	if t.Bool(1, 6, "c08.part-callers") {
+		r.Stats["part.callers"]++
+		c08Callers(r)
+		return
+	}
 	apis := []string{"WriteTo", "Encoder", "MarshalSlice", "EncoderMixed"}
 	api := apis[t.Draw(len(apis), "c08.api")]
 	c08Groups = nil
@@ -547,5 +682,5 @@ func init() {
 		},
 		Assumptions: []string{"values are compared after removing one trailing newline (the statement's equality) and, for values built with the library's leading-newline multi-line marker, the marker", "lines that are exactly '.', blanks around a first line, and field names with ':' or leading '#' are outside the text format and not generated"},
 	})
-	propProbes["C08"] = []string{"line-longer-than-4096-bytes", "transient-read-fault-while-reading-back", "encode-retried-after-transient-write-error", "encoder-mixes-structs-and-slices", "single-line-with-trailing-newline", "multi-line-with-trailing-newline", "two-empty-lines", "three-empty-lines", "four-empty-lines", "leading-marker", "three-or-more-paragraphs", "three-or-more-cycles"}
+	propProbes["C08"] = []string{"several-callers-writing-at-the-same-time", "stores-read-back-by-readers-alive-at-the-same-time", "line-longer-than-4096-bytes", "transient-read-fault-while-reading-back", "encode-retried-after-transient-write-error", "encoder-mixes-structs-and-slices", "single-line-with-trailing-newline", "multi-line-with-trailing-newline", "two-empty-lines", "three-empty-lines", "four-empty-lines", "leading-marker", "three-or-more-paragraphs", "three-or-more-cycles"}
 }
